@@ -413,6 +413,11 @@ pub fn run_plan(plan: &Plan) -> RunResult {
 	}
 	async_lock::verif_set_lock_starved(plan.sched.lock_starved);
 	async_lock::verif_set_clock(virtual_now_ns);
+	// everything that is created once per process and may touch OpenSSL's RNG comes first, so that
+	// the deterministic generator sees the same sequence of draws whether this plan is the first of
+	// its process or the hundredth
+	let _ = super::net::cached_client();
+	super::ossl_rand::install(plan.seed ^ super::prng::splitmix64(plan.index.wrapping_add(77)));
 	let mut w = World::new(plan.clone(), scratch.clone());
 	for (i, c) in plan.cas.iter().enumerate() {
 		w.cas.push(Ca::new(i, &c.host, c.knobs.clone()));
@@ -448,7 +453,9 @@ pub fn run_plan(plan: &Plan) -> RunResult {
 		}
 	}
 	acme_common::verif_clock::set(None);
-	let w = world::take().expect("world vanished");
+	let drawn = super::ossl_rand::uninstall();
+	let mut w = world::take().expect("world vanished");
+	w.count_n("probe.openssl_random_bytes_drawn", drawn);
 	RunResult {
 		world: w,
 		outcomes,
